@@ -36,3 +36,12 @@ Proof.
   - intros txt t [H|[]]. injection H as _ <-. vm_compute. repeat constructor; intros; discriminate.
   - vm_compute. split; reflexivity.
 Qed.
+
+(* With strip_comments no comment text reaches the output through a Comment node: the event loop puts
+   nothing, one blank (block comment) or one newline (one-line comment) in its place -- for every
+   comment, position, table and flags.  (Comments inside the text of kept `define directives are part
+   of the directive and stay, as the property says.) *)
+Theorem C18_comment_never_copied : forall c rec s p ig rd idp t x x',
+  kind t = K_Comment -> step3 c rec s p ig true rd idp (Enter t) x = ROk x' ->
+  s_out x' = s_out x \/ s_out x' = [32] :: s_out x \/ s_out x' = [10] :: s_out x.
+Proof. exact comment_stripped. Qed.
